@@ -13,7 +13,7 @@ PROPS = {}
 PROPS['C10'] = dict(
     level='proof',
     composition='Verus lemmas L3 (contracts/lemmas.vtmpl: lemma_reuse_without_reader, lemma_retained_under_reader, lemma_reuse_resumes) on top of L2',
-    units=['freelist', 'txn', 'commit', 'open', 'lemmas', 'nodeio'],
+    units=['freelist', 'txn', 'commit', 'open', 'lemmas', 'nodeio', 'bucketops', 'bucketcommit'],
     bounded_quick=[('commit', 'that the high-water mark of a whole HISTORY reaches a plateau (rollbacks, reopen, a large scattered free list, multi-page values) is a statement over many commits; per call it is F1/F2/X1 (proved). cex/commit.rs runs such histories on the real crate and compares the high-water mark early and late')],
     explanation='Freed space is reused: release is an equality (F2: nothing kept back, nothing released early), the bound a writer passes is the oldest open reader or itself (X1) '
                 'and a closing reader removes exactly its own id keeping the list ascending (X2); allocate is first-fit and COMPLETE (F1: None only if no run exists) and the file is '
@@ -147,7 +147,7 @@ PROPS['C16'] = dict(
 PROPS['C08'] = dict(
     bounded_quick=[('cursor', 'Node::spill and InnerBucket::merge_nodes / node (an Rc<RefCell<Node>> graph mutated through shared handles: outside both verifiers), the payload bytes Page::write_node copies (bounded Kani codec); Node::split / write / free_page / NodeData::merge, Page::write_node (layout arithmetic, never fails) and InnerBucket::{rebalance, spill, page_node} ARE under contract (units split, nodeio, writenode, bucketcommit, overlay)')],
     level='proof',
-    units=['range', 'cursor', 'pagenode', 'filters', 'bytes', 'data'],
+    units=['range', 'cursor', 'pagenode', 'filters', 'bytes', 'data', 'txn'],
     explanation='Ranges: Range::next is verified on its real body for a generic R: RangeBounds<&[u8]> (all nine combinations of included / excluded / unbounded) against the '
                 'documented Cursor semantics: everything yielded lies within both bounds and is the entry at the cursor; on the first call no entry that satisfies both bounds is '
                 'skipped; later calls advance by exactly one entry and yield None only at the end or beyond the upper bound; the cursor stays well-formed. '
